@@ -196,7 +196,7 @@ CLAIMED = {
         "dependencies are exported, a returned package never holds two modules of one name and a clash anywhere below the tops raises "
         "(exported_names_unique; refusal and module order compared with the real exporter on random DAGs with clashing names); connection targets produced by resolver + "
         "exporter (fragment F1) carry exactly the connection's width and stay inside their signals (target_width, C03 "
-        "exported_bits_in_range); for whole modules (export_module_wf, over the model of export_module / export_port / export_instance): an "
+        "exported_bits_in_range); for whole modules (export_module_wf and, for an exporter that writes the ports' signals first, export_module_wf_ports_first — same hypothesis, by lookup_append_comm — over the model of export_module / export_port / export_instance): an "
         "elaborated module in the state EWF — one object per name, no zero-width signal, directed ports, every instance of a defined target with "
         "each port connected exactly once to a connectable over the module's own signals that exports and has the port's width — is exported "
         "without error and the result has none of the module-level defects the property lists, in whatever package it ends up. EWF is evaluated on "
